@@ -23,7 +23,8 @@ def shapes_for(stat, tier, rng):
     if stat in ("king", "r0", "r1"):
         return [[3, 3]]
     if d == 1:
-        return [[n] for n in range(4, 13)] + [[rng.randrange(13, 121 if tier == "quick" else 401)] for _ in range(3 if tier == "quick" else 12)]
+        return [[n] for n in range(4, 13)] + [[rng.randrange(13, 121 if tier == "quick" else 401)] for _ in range(3 if tier == "quick" else 12)] + \
+            ([[172], [174]] if tier == "quick" else [[n] for n in range(169, 177)])    # factorial table seam: 171 and 173 chromosomes
     if d == 2:
         return [[a, b] for a in range(3, 7) for b in range(3, 6)]
     if d == 3:
